@@ -154,7 +154,9 @@ func runC06() {
 								Input: in, Want: "memory budget exceeded", Got: fmt.Sprintf("%v / %v (accounted %d)", r.out, r.err, used)})
 						}
 					}
-					if bi < 3 {
+					if bi < 3 && (need <= 8000 || bi == 2) {
+						// (the in-Coq evaluation costs time proportional to the elements created: runs that create more than 8000
+						// elements are judged by the oracle above only, except under budget 1 where the model stops at once)
 						cases = append(cases, coreCase(false, m.Cast, b, ei, tree, prog, r))
 					}
 				}
@@ -207,7 +209,7 @@ func runC06() {
 		}
 	}
 	rep.Distinct = len(distinct)
-	rep.Rule = "allocating expressions (array/map literals, run-time ranges with ascending, empty and descending bounds chosen by the environment, map/filter results, nestings to depth 3) compiled untyped and typed+optimized; for each environment the ideal run (budget 2^61) gives the need N read from the VM's counter (verif hook) and cross-checked against the elements visible in the result; then budgets N+1, N, 1, 2, N/2, N+17, 10^6: success with the same result iff budget > N, 'memory budget exceeded' iff budget <= N; distinct_nontrivial = distinct (source, mode, environment) with N >= 1; the runs with the first three budgets are also evaluated in the Coq VM and reference semantics"
+	rep.Rule = "allocating expressions (array/map literals, run-time ranges with ascending, empty and descending bounds chosen by the environment, map/filter results, nestings to depth 3) compiled untyped and typed+optimized; for each environment the ideal run (budget 2^61) gives the need N read from the VM's counter (verif hook) and cross-checked against the elements visible in the result; then budgets N+1, N, 1, 2, N/2, N+17, 10^6: success with the same result iff budget > N, 'memory budget exceeded' iff budget <= N; distinct_nontrivial = distinct (source, mode, environment) with N >= 1; the runs with the first three budgets are also evaluated in the Coq VM and reference semantics (N <= 8000; above that only the run under budget 1)"
 	for i := 0; i < 5 && i < len(srcs); i++ {
 		rep.Samples = append(rep.Samples, srcs[(i*131+3)%len(srcs)])
 	}
